@@ -14,6 +14,8 @@ import Pyiga.Proofs.TensorGen
 import Pyiga.Proofs.TensorT2C
 import Pyiga.Proofs.TensorGreedy
 import Pyiga.Proofs.TensorGetitemT
+import Pyiga.Proofs.TensorTrunc
+import Pyiga.Proofs.TensorTruncate
 import Mathlib.Tactic.NormNum
 import Mathlib.Tactic.FieldSimp
 
@@ -261,6 +263,15 @@ theorem resToTen_asarray (r : Res α) : (resToTen r).asarray = r.asarray := by
     simp only [resToTen, Res.asarray, Ten.asarray, Ten.shape, ofFn_shape, Ten.entry]
     exact ofFn_get_self _ _
 end GetItem
+
+/-- **`TuckerTensor.truncate(k)`**: slicing every factor matrix to its first `k_j` columns and the core to `X[:k]`
+(Python slice clamping) expands to the Tucker tensor with the *same* factors whose core is zeroed outside the leading
+box `k` (`Full.mask`).  Truncation is not an operation on the expansion (it depends on the representation), so it is
+not a step of `faithful_seq_partial`; together with `truncation_budget` it says: with orthonormal factors the squared
+truncation error is the squared norm of the zeroed core entries, which `find_truncation_rank` keeps ≤ tol². -/
+theorem faithful_truncate (Us : List (Mat α)) (X : Full α) (k : List Nat) (T' : Ten α)
+    (hw : (Ten.tucker Us X).WF) (h : (Ten.tucker Us X).truncate k = .ok T') :
+    T'.WF ∧ T'.asarray = (Ten.tucker Us (X.mask k)).asarray := truncate_spec Us X k T' hw h
 
 /-! ## every operation sequence -/
 
@@ -560,12 +571,11 @@ end Ring
 
 /-! ## the full operation set (statement; proved part above, rest tied by correspondence) -/
 
-/-- Full-strength sequence statement over the driver's complete operation set.  The tensor-side
-step function `stepAll` and the numpy-side `stepAllF` are parameters here: the statement is
-that the same induction goes through once each remaining operation (`getitem` incl.
-`_normalize_indices`, `squeeze`, `truncate`, `apply_tprod`/`pad` on sums and products) has its
-`faithful_<op>` lemma.  NOT proved; those operations are covered by the exact correspondence
-diff and the numpy oracle on every generated step. -/
+/-- What is still missing for the full-strength sequence statement over the driver's complete operation set:
+`getitem`, `squeeze`, `apply_tprod`, `pad` on TensorSum / TensorProd (and ndarray) operands — the Canonical and Tucker
+cases are proved (`faithful_getitem_leaf`, `faithful_squeeze_leaf`, `faithful_nway_leaf`, `faithful_pad_leaf`) and are
+steps of `faithful_seq_partial`.  The statement below is the getitem clause for an arbitrary (nested) tensor object.
+NOT proved; covered by the exact correspondence diff and the numpy oracle on every generated step. -/
 def faithful_seq_full (α : Type) [CommRing α] [DecidableEq α] : Prop :=
   ∀ (T T' : Ten α) (I : List PyIndex), T.WF → T.getitem I = .ok (.t T') →
     ∃ n, normalizeIndices I T.shape = .ok n ∧ (T.asarray.take n.idx).squeeze n.singl = .ok T'.asarray
@@ -698,6 +708,56 @@ theorem truncation_budget_partial (get : List Nat → α) (tolsq : α) : ∀ (fu
         simp only [sumL_cons]
         rw [← add_assoc]
         exact h'
+
+/-- **truncation budget, disjointness half**: the slices removed by the loop are pairwise disjoint and disjoint from
+the kept leading box, so the squared norm over the original box is the squared norm over the kept box plus the sum of
+the recorded slice norms — for every tensor, tolerance and iteration count. -/
+theorem truncation_disjoint (get : List Nat → α) (tolsq : α) : ∀ (fuel : Nat) (s : List Nat) (total : α), s ≠ [] →
+    boxSum s (fun I => get I * get I) =
+      boxSum (truncTrace get tolsq fuel s total).1 (fun I => get I * get I) + sumL (truncTrace get tolsq fuel s total).2
+  | 0, s, total, _ => by simp [truncTrace]
+  | fuel + 1, s, total, hs => by
+    simp only [truncTrace]
+    split
+    · simp
+    · rename_i hp
+      split
+      · simp
+      · have herr : ((List.range s.length).map (lastSliceSq get s)) ≠ [] := by
+          cases s with
+          | nil => exact absurd rfl hs
+          | cons n s => simp [List.range_succ]
+        have hax := argmin_lt _ herr
+        simp only [List.length_map, List.length_range] at hax
+        have hs' : s.set (argmin ((List.range s.length).map (lastSliceSq get s)))
+            (s.getD (argmin ((List.range s.length).map (lastSliceSq get s))) 0 - 1) ≠ [] := by
+          intro h0
+          have := congrArg List.length h0
+          simp at this
+          exact hs this
+        have ih := truncation_disjoint get tolsq fuel _
+          (total + ((List.range s.length).map (lastSliceSq get s)).getD
+            (argmin ((List.range s.length).map (lastSliceSq get s))) 0) hs'
+        simp only [sumL_cons]
+        rw [boxSum_split_last _ s (fun I => get I * get I) hax (prod_pos_getD s _ hp hax), ih]
+        have hget : ((List.range s.length).map (lastSliceSq get s)).getD
+            (argmin ((List.range s.length).map (lastSliceSq get s))) 0
+            = lastSliceSq get s (argmin ((List.range s.length).map (lastSliceSq get s))) := by
+          rw [List.getD_eq_getElem?_getD, List.getElem?_map, List.getElem?_range hax]; rfl
+        rw [hget]
+        simp only [lastSliceSq]
+        ring
+
+/-- **`truncation_budget`**: `find_truncation_rank` returns a leading box `r` such that the squared Frobenius norm of
+everything outside it, `‖X‖² − ‖X[:r]‖²` (= the squared truncation error of the core, hence of the tensor when the
+factor matrices are orthonormal), is a sum of removed slice norms that stays within `tol²`. -/
+theorem truncation_budget (get : List Nat → α) (tolsq : α) (h0 : 0 ≤ tolsq) (fuel : Nat) (s : List Nat) (hs : s ≠ []) :
+    ∃ removed : α,
+      boxSum s (fun I => get I * get I)
+        = boxSum (findTruncLoop get tolsq fuel s 0) (fun I => get I * get I) + removed ∧ 0 + removed ≤ tolsq :=
+  ⟨sumL (truncTrace get tolsq fuel s 0).2,
+   by rw [← truncTrace_shape]; exact truncation_disjoint get tolsq fuel s 0 hs,
+   truncation_budget_partial get tolsq fuel s 0 h0⟩
 
 /-- non-vacuity: on the 1-D core `[3, 1, 1]` with `tol² = 5/2` two slices of squared norm 1 are removed -/
 example : truncTrace (fun I => ([3, 1, 1] : List Rat).getD (I.getD 0 0) 0) (5/2) 10 [3] 0 = ([1], [1, 1]) := by
